@@ -264,6 +264,9 @@ def run(rep, tier):
         rep.call(type_tables.t_types, rep, prog, "C06.table")
         from ..engines import row_coverage
         rep.call(row_coverage.zip_store, rep, prog, "C06.store-every-pixel")
+        from ..engines import simd_rules as _sr
+        rep.call(_sr.movemask_const, rep, prog, "C06.movemask-const")
+        rep.call(_sr.float_alpha_unsaturated, rep, prog, "C06.float-unsaturated")
         rep.call(row_coverage.divide_every_chunk, rep, prog, "C06.divide-every-chunk",
                  {"x86": 6, "x86-rayon": 6, "wasm": 1}.get(cfg, 0))
         rep.call(type_tables.recip_table, rep, prog, "C06.recip-table")
